@@ -1,6 +1,7 @@
 import XProofs.LstsqNormal
 import XProofs.LeastSquares
 import XProofs.Limits
+import XProofs.FirstStep
 import Mathlib.Tactic.FieldSimp
 /-!
 # C16 — the Newton step is the least-squares solution; scalings and Jacobians are consistent
@@ -53,6 +54,50 @@ theorem C16_min_norm {m n : Type} [Fintype m] [Fintype n] (A : Matrix m n K) (b 
     (hx : x = Aᵀ *ᵥ w) (hN : Aᵀ *ᵥ (A *ᵥ x) = Aᵀ *ᵥ b) (z : n → K) (hz : Aᵀ *ᵥ (A *ᵥ z) = Aᵀ *ᵥ b) :
     x ⬝ᵥ x ≤ z ⬝ᵥ z :=
   LS.minnorm_of_range A b x w hx hN z hz
+
+/-- consistent linear problem (`f x = A x - b`, Jacobian `A`, `∃ xs, A xs = b`): one step `x0 - d` with `d` any
+    solution of the normal equations of `A d = f x0` lands exactly on a solution, whatever the shape or rank
+    of `A` (inside wide limits: no clipping) -/
+theorem C16_first_step_lands {m n : Type} [Fintype m] [Fintype n] (A : Matrix m n K) (b : m → K) (x0 d : n → K)
+    (hN : Aᵀ *ᵥ (A *ᵥ d) = Aᵀ *ᵥ (A *ᵥ x0 - b)) (hC : ∃ xs, A *ᵥ xs = b) :
+    A *ᵥ (x0 - d) = b :=
+  FirstStep.first_step_lands A b x0 d hN hC
+
+/-- the same with the normal equations in the form `C16_least_squares` takes them -/
+theorem C16_first_step_lands_of_normal_residual {m n : Type} [Fintype m] [Fintype n] (A : Matrix m n K) (b : m → K)
+    (x0 d : n → K) (hN : Aᵀ *ᵥ (A *ᵥ d - (A *ᵥ x0 - b)) = 0) (hC : ∃ xs, A *ᵥ xs = b) :
+    A *ᵥ (x0 - d) = b :=
+  FirstStep.first_step_lands_of_normal_residual A b x0 d hN hC
+
+/-- the same for `d` a least-squares solution proper (the conclusion of `C16_least_squares`): no `z` has a
+    smaller residual of `A z = f x0` -/
+theorem C16_first_step_lands_of_minimiser {m n : Type} [Fintype m] [Fintype n] (A : Matrix m n K) (b : m → K)
+    (x0 d : n → K)
+    (hM : ∀ z : n → K, (A *ᵥ d - (A *ᵥ x0 - b)) ⬝ᵥ (A *ᵥ d - (A *ᵥ x0 - b))
+                      ≤ (A *ᵥ z - (A *ᵥ x0 - b)) ⬝ᵥ (A *ᵥ z - (A *ᵥ x0 - b)))
+    (hC : ∃ xs, A *ᵥ xs = b) :
+    A *ᵥ (x0 - d) = b :=
+  FirstStep.first_step_lands_of_minimiser A b x0 d hM hC
+
+/-- composed with `C16_normal_eq`: the step that `lstsq` computes from the SVD `A = U diag(s) Vh` lands on a
+    solution of a consistent system -/
+theorem C16_first_step_lands_lstsq {m n k : Type} [Fintype m] [Fintype n] [Fintype k] [DecidableEq k] [DecidableEq m]
+    [DecidableEq n] (U : Matrix m k K) (Vh : Matrix k n K) (s sinv : k → K) (b : m → K) (x0 : n → K)
+    (hU : Uᵀ * U = 1) (hV : Vh * Vhᵀ = 1) (hs : ∀ i, s i * s i * sinv i = s i)
+    (hC : ∃ xs, (U * diagonal s * Vh) *ᵥ xs = b) :
+    let A := U * diagonal s * Vh
+    let d := Vhᵀ *ᵥ (diagonal sinv *ᵥ (Uᵀ *ᵥ (A *ᵥ x0 - b)))
+    A *ᵥ (x0 - d) = b :=
+  FirstStep.first_step_lands_lstsq U Vh s sinv b x0 hU hV hs hC
+
+/-- weighted targets (`W = diag w`, all weights positive): the step solves `(W A) d = W f(x0)` in the
+    least-squares sense; a consistent system is still solved exactly -/
+theorem C16_first_step_lands_weighted {m n : Type} [Fintype m] [Fintype n] [DecidableEq m] (A : Matrix m n K)
+    (w : m → K) (b : m → K) (x0 d : n → K) (hw : ∀ i, 0 < w i)
+    (hN : (diagonal w * A)ᵀ *ᵥ ((diagonal w * A) *ᵥ d) = (diagonal w * A)ᵀ *ᵥ (diagonal w *ᵥ (A *ᵥ x0 - b)))
+    (hC : ∃ xs, A *ᵥ xs = b) :
+    A *ᵥ (x0 - d) = b :=
+  FirstStep.first_step_lands_weighted_pos A w b x0 d hw hN hC
 
 /-- knob weights: `_x_to_knobs` and `_knobs_to_x` are inverse to each other -/
 theorem C16_weights_inverse (w k x : K) (hw : w ≠ 0) : (k / w) * w = k ∧ (x * w) / w = x :=
